@@ -29,13 +29,17 @@ HEADER = ("From Coq Require Import NArith ZArith List Bool String.\nImport ListN
 
 def classify(obs):
     """which axis the first difference lies on"""
-    keys = [(o["sha"], o.get("err", "")) for o in obs]
-    inproc = {k for k, o in zip(keys, obs) if o["mode"] == "inproc"}
-    cli = {k for k, o in zip(keys, obs) if o["mode"] == "cli"}
-    fresh = {k for k, o in zip(keys, obs) if o["state"] == "fresh"}
-    exist = {k for k, o in zip(keys, obs) if o["state"] == "existing"}
+    key = lambda o: (o["sha"], o.get("err", ""))
+    plain = [o for o in obs if o["state"] in ("fresh", "existing")]
+    ref = key(plain[0]) if plain else key(obs[0])
+    if all(key(o) == ref for o in plain) and any(key(o) != ref for o in obs):
+        return "previous-output-file (stale %s)" % ", ".join(sorted({o["state"] for o in obs if key(o) != ref}))
+    inproc = {key(o) for o in plain if o["mode"] == "inproc"}
+    cli = {key(o) for o in plain if o["mode"] == "cli"}
     if len(inproc) == 1 and len(cli) == 1:
         return "one-process-vs-separate-processes"
+    fresh = {key(o) for o in plain if o["state"] == "fresh"}
+    exist = {key(o) for o in plain if o["state"] == "existing"}
     if len(fresh) == 1 and len(exist) == 1:
         return "fresh-vs-already-generated"
     return "run-to-run"
@@ -43,7 +47,11 @@ def classify(obs):
 
 def view(j):
     d = j["def"]
-    return {"generator": d["gen"], "types_flag": ",".join(d["types"]), "options": d.get("opts") or [],
+    types = d["types"] if j.get("cfg") != "sub" else d["types"][:1]
+    return {"generator": d["gen"], "types_flag": ",".join(types), "options": d.get("opts") or [],
+            "configuration": "as given" if j.get("cfg") != "sub" else
+                             "first type only; the package held the output of the full -types list (%s) / foreign files before some generations" % ",".join(d["types"]),
+            "generated_in_one_process_with": d.get("batch") and "the other package(s) of batch %s, in list order" % d["batch"],
             "definition": d["source"], "has": d.get("counts"),
             "generations": [{"mode": o["mode"], "state": o["state"], "sha256": o["sha"][:16], "err": o.get("err", "")}
                             for o in j["obs"]]}
@@ -95,7 +103,7 @@ def run_farm(ctx, binp, clis, args, tag):
 def minimise(ctx, binp, clis, j):
     """try the same file with a single type in -types; keep the first that still differs"""
     d = j["def"]
-    if len(d["types"]) < 2:
+    if len(d["types"]) < 2 or j.get("cfg") == "sub" or d.get("batch"):
         return j
     cands = []
     for k, t in enumerate(d["types"]):
@@ -137,8 +145,23 @@ def locate_order(j):
     return None
 
 
+def attach_batches(jsons):
+    """a definition generated in one process together with others (twin packages) is only
+    reproducible with them: keep the whole batch with the case"""
+    by = {}
+    for j in jsons:
+        b = j["def"].get("batch")
+        if b and j.get("cfg") != "sub":
+            by.setdefault(b, []).append(j["def"])
+    for j in jsons:
+        b = j["def"].get("batch")
+        if b:
+            j["batch_defs"] = by.get(b)
+
+
 def report_bad(ctx, j, code):
-    rep = {"case": view(j), "replay_cmd": "./check C14 --replay <this file>", "def": j["def"]}
+    rep = {"case": view(j), "replay_cmd": "./check C14 --replay <this file>", "def": j["def"],
+           "batch_defs": j.get("batch_defs")}
     if code == 1:
         outs = j.get("outputs") or []
         rep["verdict"] = "two generations of the same definition wrote different bytes (or differed in failing)"
@@ -186,11 +209,13 @@ def run(ctx):
             return
         clis[mod] = p
     quick = ctx.tier == "quick"
-    reps = 5 if quick else 20
-    terms, jsons, err = run_farm(ctx, binp, clis, ["-n", 3 if quick else 18, "-reps", reps], "hash")
+    reps = 3 if quick else 20
+    terms, jsons, err = run_farm(ctx, binp, clis, ["-n", 3 if quick else 18, "-reps", reps,
+                                                   "-stale-inproc", "first" if quick else "all"], "hash")
     if err:
         ctx.report({"unchecked": "hash farm run", "detail": err[-3000:]}, {"kind": "harness"}, failing_input=False)
         return
+    attach_batches(jsons)
     bad, n_gsort, err = ctx.judge_cases(HEADER, "gd_case", "gd_judge", terms, shard=40, tag="hash",
                                         nontrivial="gd_is_gsort")
     if err:
@@ -226,6 +251,7 @@ def run(ctx):
         if not werr:
             wbad, _, werr = ctx.judge_cases(HEADER, "gd_case", "gd_judge", wt, shard=40, tag="wide")
         if not werr:
+            attach_batches(wj)
             for j in wj:
                 j["widened"] = True
             bad += [(len(jsons) + i, c) for i, c in wbad]
@@ -262,7 +288,11 @@ def run(ctx):
     ctx.cov.update({
         "evaluations": len(jsons),
         "generations": gens,
-        "generations_per_definition": "%d in one process (interleaved with another definition, alternating fresh/existing) + %d in separate processes (real CLIs)" % (reps, reps),
+        "generations_per_definition": "%d in one process (interleaved with another definition / its twin packages, alternating fresh/existing) + %d in separate processes (real CLIs), then the stale-output history "
+                                      "(fresh subset configuration, full over the shorter output, subset over the longer output, over a long foreign file, over a minimal file) in separate processes for every definition and in one process for %s" % (
+                                          reps, reps, "the first of each stream" if quick else "every definition"),
+        "package_states": gsort_lib.hist(o["state"] for j in jsons for o in j["obs"]),
+        "twin_package_batches": len({j["def"].get("batch") for j in jsons if j["def"].get("batch")}),
         "distinct_nontrivial": vlib.distinct_count([j["def"]["source"] for j in produced]),
         "rule": "case = one definition file (gsort / genum / gerror) with >= 2 of everything the generator keeps in a map "
                 "or sorts (types per file, sorters per struct, duplicate-value groups, traits, imported packages, tagged fields) "
@@ -304,8 +334,8 @@ def replay(ctx, path):
             return 2
     p = os.path.join(ctx.scratch, "replay_defs.json")
     with open(p, "w") as f:
-        json.dump([d], f)
-    terms, jsons, err = run_farm(ctx, binp, clis, ["-defs", p, "-reps", 10], "replay")
+        json.dump(rep.get("batch_defs") or [d], f)
+    terms, jsons, err = run_farm(ctx, binp, clis, ["-defs", p, "-reps", 6, "-stale-inproc", "all"], "replay")
     if err:
         print(err)
         return 2
@@ -313,6 +343,7 @@ def replay(ctx, path):
     if err:
         print(err)
         return 2
-    print(json.dumps(view(jsons[0]), indent=1))
-    print("STILL FAILING" if bad else "ok: all %d generations byte-identical" % len(jsons[0]["obs"]))
+    for i, c in bad:
+        print(json.dumps(view(jsons[i]), indent=1))
+    print("STILL FAILING" if bad else "ok: all %d generations byte-identical per configuration" % sum(len(j["obs"]) for j in jsons))
     return 1 if bad else 0
